@@ -72,10 +72,10 @@ arb!(c19_filtered_params, FilteredPublicKeyCredentialParameters, 12, 20, |v| {
         i += 1;
     }
 });
-arb!(c19_hmac_secret_input, get_assertion::HmacSecretInput, 40, 90, |v| {
+arb!(c19_hmac_secret_input, get_assertion::HmacSecretInput, 24, 60, |v| {
     assert!(v.key_agreement.x.len() <= 32 && v.key_agreement.y.len() <= 32 && v.salt_enc.len() <= 80 && v.salt_auth.len() <= 32);
 });
-arb!(c19_subcommand_params, credential_management::SubcommandParameters<'_>, 12, 40, |v| {
+arb!(c19_subcommand_params, credential_management::SubcommandParameters<'_>, 6, 40, |v| {
     if let Some(d) = &v.credential_id {
         check_desc(d);
     }
@@ -90,12 +90,12 @@ arb!(c19_large_blobs_request, large_blobs::Request<'_>, 24, 30, |v| {
     let c = v.clone();
     assert!(c.offset == v.offset);
 });
-arb!(c19_client_pin_request, client_pin::Request<'_>, 16, 40, |v| {
+arb!(c19_client_pin_request, client_pin::Request<'_>, 10, 40, |v| {
     if let Some(s) = v.rp_id {
         assert!(is_valid(s.as_bytes()), "rp id valid UTF-8");
     }
 });
-arb!(c19_cred_mgmt_request, credential_management::Request<'_>, 10, 40, |v| {
+arb!(c19_cred_mgmt_request, credential_management::Request<'_>, 6, 40, |v| {
     if let Some(p) = &v.sub_command_params {
         if let Some(u) = &p.user {
             check_user(u);
@@ -112,16 +112,16 @@ arb!(c19_ctap1_request, ctap1::Request<'_>, 72, 76, |v| {
     assert!(matches!((&c, v), (ctap1::Request::Version, ctap1::Request::Version) | (ctap1::Request::Register(_), ctap1::Request::Register(_))
         | (ctap1::Request::Authenticate(_), ctap1::Request::Authenticate(_))));
 });
-arb!(c19_get_assertion_request, get_assertion::Request<'_>, 8, 40, |v| {
+arb!(c19_get_assertion_request, get_assertion::Request<'_>, 4, 40, |v| {
     assert!(is_valid(v.rp_id.as_bytes()), "rp id valid UTF-8");
 });
-arb!(c19_make_credential_request, make_credential::Request<'_>, 8, 40, |v| {
+arb!(c19_make_credential_request, make_credential::Request<'_>, 4, 40, |v| {
     check_rp(&v.rp);
     check_user(&v.user);
 });
 // the derived enum wrappers choose a variant from the first bytes: tiny inputs, no-panic only
-arb!(c19_ctap2_request_enum, ctap2::Request<'_>, 3, 40, |_v| {});
-arb!(c19_authenticator_request_enum, authenticator::Request<'_>, 3, 40, |_v| {});
+arb!(c19_ctap2_request_enum, ctap2::Request<'_>, 2, 40, |_v| {});
+arb!(c19_authenticator_request_enum, authenticator::Request<'_>, 2, 40, |_v| {});
 
 #[cfg(feature = "replay")]
 include!("gen/replay.rs");
